@@ -14,41 +14,41 @@ open Irismod.Sdk Irismod.GoSem Irismod.Gen.PureHtlc Irismod.Htlc
 theorem htlc_all_translated : Irismod.Gen.PureHtlc.untranslated = [] := rfl
 
 theorem htlc_translated_pinned : Irismod.Gen.PureHtlc.translated =
-    ["IncCurrent_supplyLimit_1",
-     "IncCurrent_timeBasedSupplyLimit_1",
-     "IncCurrent_supply_TimeLimitedCurrentSupply_1",
-     "IncCurrent_supply_CurrentSupply_1",
-     "IncCurrent_guard_1",
-     "IncCurrent_cond_2",
-     "IncCurrent_guard_3",
-     "DecCurrent_supply_CurrentSupply_1",
-     "DecCurrent_guard_1",
-     "IncIncoming_totalSupply_1",
-     "IncIncoming_supplyLimit_1",
-     "IncIncoming_timeLimitedTotalSupply_1",
-     "IncIncoming_timeBasedSupplyLimit_1",
-     "IncIncoming_supply_IncomingSupply_1",
-     "IncIncoming_guard_1",
-     "IncIncoming_cond_2",
-     "IncIncoming_guard_3",
-     "DecIncoming_supply_IncomingSupply_1",
-     "DecIncoming_guard_1",
-     "IncOutgoing_supply_OutgoingSupply_1",
-     "IncOutgoing_guard_1",
-     "DecOutgoing_supply_OutgoingSupply_1",
-     "DecOutgoing_guard_1",
-     "createHTLT_guard_1",
-     "createHTLT_guard_2",
-     "createHTLT_guard_3",
-     "createHTLT_cond_4",
-     "createHTLT_guard_5",
-     "createHTLT_guard_6",
-     "createHTLT_guard_7",
-     "createHTLT_guard_8",
-     "UpdateWindow_newTimeElapsed_1",
-     "UpdateWindow_supply_TimeElapsed_1",
-     "UpdateWindow_supply_TimeElapsed_2",
-     "UpdateWindow_cond_1"] := rfl
+    ["IncCurrent_supplyLimit_1(coin,limit_Limit)",
+     "IncCurrent_timeBasedSupplyLimit_1(coin,limit_TimeBasedLimit)",
+     "IncCurrent_supply_TimeLimitedCurrentSupply_1(supply_TimeLimitedCurrentSupply,coin)",
+     "IncCurrent_supply_CurrentSupply_1(supply_CurrentSupply,coin)",
+     "IncCurrent_guard_1(supplyLimit,supply_CurrentSupply,coin)",
+     "IncCurrent_cond_2(limit_TimeLimited)",
+     "IncCurrent_guard_3(timeBasedSupplyLimit,supply_TimeLimitedCurrentSupply,coin)",
+     "DecCurrent_supply_CurrentSupply_1(supply_CurrentSupply,coin)",
+     "DecCurrent_guard_1(supply_CurrentSupply,coin)",
+     "IncIncoming_totalSupply_1(supply_CurrentSupply,supply_IncomingSupply)",
+     "IncIncoming_supplyLimit_1(coin,limit_Limit)",
+     "IncIncoming_timeLimitedTotalSupply_1(supply_TimeLimitedCurrentSupply,supply_IncomingSupply)",
+     "IncIncoming_timeBasedSupplyLimit_1(coin,limit_TimeBasedLimit)",
+     "IncIncoming_supply_IncomingSupply_1(supply_IncomingSupply,coin)",
+     "IncIncoming_guard_1(supplyLimit,totalSupply,coin)",
+     "IncIncoming_cond_2(limit_TimeLimited)",
+     "IncIncoming_guard_3(timeBasedSupplyLimit,timeLimitedTotalSupply,coin)",
+     "DecIncoming_supply_IncomingSupply_1(supply_IncomingSupply,coin)",
+     "DecIncoming_guard_1(supply_IncomingSupply,coin)",
+     "IncOutgoing_supply_OutgoingSupply_1(supply_OutgoingSupply,coin)",
+     "IncOutgoing_guard_1(supply_CurrentSupply,supply_OutgoingSupply,coin)",
+     "DecOutgoing_supply_OutgoingSupply_1(supply_OutgoingSupply,coin)",
+     "DecOutgoing_guard_1(supply_OutgoingSupply,coin)",
+     "createHTLT_guard_1(read_len_amount)",
+     "createHTLT_guard_2(amount_0,asset_MinSwapAmount,asset_MaxSwapAmount)",
+     "createHTLT_guard_3(timestamp,pastTimestampLimit,futureTimestampLimit)",
+     "createHTLT_cond_4(read_sender_Equals_deputyAddress)",
+     "createHTLT_guard_5(read_to_Equals_deputyAddress)",
+     "createHTLT_guard_6(read_to_Equals_deputyAddress)",
+     "createHTLT_guard_7(timeLock,asset_MinBlockLock,asset_MaxBlockLock)",
+     "createHTLT_guard_8(amount_0,asset_FixedFee,asset_MinSwapAmount)",
+     "UpdateWindow_newTimeElapsed_1(supply_TimeElapsed,timeElapsed)",
+     "UpdateWindow_supply_TimeElapsed_1(newTimeElapsed)",
+     "UpdateWindow_supply_TimeElapsed_2()",
+     "UpdateWindow_cond_1(asset_SupplyLimit_TimeLimited,newTimeElapsed,asset_SupplyLimit_TimePeriod)"] := rfl
 
 local macro "hsimp" "[" hs:ident,* "]" : tactic =>
   `(tactic| simp only [$[$hs:ident],*, decide_true, decide_false, if_true, if_false, obind_some, obind_none,
